@@ -48,3 +48,28 @@ long syscall(long number, ...)
     errno = ENOSYS; return -1;
 }
 #endif
+
+/* the fourth interface: no getrandom / getentropy / SYS_getrandom at all, the library opens and reads /dev/urandom.  The scripted source sits behind that device: open() of the
+ * device path gives the descriptor number VP_SYSRAND_FD (any number is a valid descriptor, 0 included: a process may have closed its standard input), read() on it is one scripted
+ * delivery, close() is counted.  Everything else goes to the kernel. */
+unsigned sysrand_opens, sysrand_closes, sysrand_bad_closes;
+#if defined(VP_SYSRAND_DEVICE)
+#include <fcntl.h>
+#include <unistd.h>
+#ifndef VP_SYSRAND_FD
+#define VP_SYSRAND_FD 100
+#endif
+static int dev_is_open;
+int open(const char *path, int flags, ...)
+{
+    mode_t mode = 0; if (flags & O_CREAT) { va_list ap; va_start(ap, flags); mode = va_arg(ap, mode_t); va_end(ap); }
+    if (!strcmp(path, "/dev/urandom") || !strcmp(path, "/dev/random")) { sysrand_opens++; dev_is_open = 1; return VP_SYSRAND_FD; }
+    return (int)syscall(SYS_openat, AT_FDCWD, path, flags, mode);
+}
+ssize_t read(int fd, void *buf, size_t n) { if (dev_is_open && fd == VP_SYSRAND_FD) return getrandom(buf, n, 0); return (ssize_t)syscall(SYS_read, fd, buf, n); }
+int close(int fd)
+{
+    if (fd == VP_SYSRAND_FD && (dev_is_open || sysrand_opens)) { sysrand_closes++; if (!dev_is_open) sysrand_bad_closes++; dev_is_open = 0; return 0; }
+    return (int)syscall(SYS_close, fd);
+}
+#endif
